@@ -46,7 +46,7 @@ def ensure_generic_use(rng, E):
 def rand_variant(rng, ident, generics, allow_default=True, allow_disabled=True, p_lit=0.6, lits=None, used=None):
     lits = lits or LITS
     kind = rng.choice(["unit", "unit", "tuple", "named"])
-    nf = 0 if kind == "unit" else rng.choice([1, 1, 2, 3])
+    nf = 0 if kind == "unit" else rng.choice([0, 1, 1, 1, 2, 3])       # `V()` and `V {}` are legal variants too
     fields = rand_fields(rng, kind, nf, generics)
     ser, ts = [], None
     if rng.random() < p_lit:
@@ -315,7 +315,7 @@ def names_def(rng, did, allow_prefix=True, styles=None, fieldless=False, nmax=6)
     vs = []
     for ident in idents:
         kind = "unit" if fieldless else rng.choice(["unit", "unit", "tuple", "named"])
-        nf = 0 if kind == "unit" else rng.choice([1, 2, 3])
+        nf = 0 if kind == "unit" else rng.choice([0, 1, 2, 3])
         fields = rand_fields(rng, kind, nf, generics)
         mode = rng.choice(["none", "none", "ts", "ser", "ser", "ser", "both"])
         ser, ts = [], None
